@@ -631,6 +631,95 @@ def Ex.isBoolKind : Ex → Bool
 
 /-! ## Insert path -/
 
+/-! ## CROSSHIFT: the statements that decide how often the loop of `addCrosshiftExpr` runs
+
+The dispatch model above only needs "error or some fields".  How MANY fields one
+`CROSSHIFT(value, cutoff, interval)` expands to — the work a client controls with two durations —
+depends on the ORDER of five small statements (zero checks, `interval = |interval|`,
+`limit = |cutoff|`, the cap check, the loop).  They are modelled as a little program whose
+statement order is regenerated from the source (`Facts.crosshiftOps`), so that moving the sign
+normalisation below the cap check, or dropping the cap or the loop's overflow guard, changes
+the program the theorem is about.  Durations are Go `int64` nanoseconds; `maxDur = 2^63 - 1`.
+`ParseDuration` never returns `-2^63`, so negation is exact (the explicit precondition of
+`crosshift_fields_bounded`); the only place where `int64` arithmetic can wrap is `i += interval`. -/
+
+namespace Cross
+
+def maxDur : Int := 9223372036854775807
+
+inductive Op
+  | parseCutoff | zeroCutoff | parseInterval | zeroInterval | absInterval | limitIsCutoff | absLimit
+  | cap | loop | loopGuarded
+deriving Repr, DecidableEq
+
+def Op.ofString : String → Option Op
+  | "parseCutoff" => some .parseCutoff
+  | "zeroCutoff" => some .zeroCutoff
+  | "parseInterval" => some .parseInterval
+  | "zeroInterval" => some .zeroInterval
+  | "absInterval" => some .absInterval
+  | "limitIsCutoff" => some .limitIsCutoff
+  | "absLimit" => some .absLimit
+  | "cap" => some .cap
+  | "loop" => some .loop
+  | "loopGuarded" => some .loopGuarded
+  | _ => none
+
+/-- the statement order of the code with the C16 fixes -/
+def canonical : List Op :=
+  [.parseCutoff, .zeroCutoff, .parseInterval, .zeroInterval, .absInterval, .limitIsCutoff, .absLimit, .cap, .loopGuarded]
+
+def canonicalNames : List String :=
+  ["parseCutoff", "zeroCutoff", "parseInterval", "zeroInterval", "absInterval", "limitIsCutoff", "absLimit", "cap", "loopGuarded"]
+
+/-- what one CROSSHIFT does with its two durations -/
+inductive Out
+  | error                 -- an error is returned
+  | fields (n : Nat)      -- the loop adds n fields (before de-duplication by name)
+  | diverges              -- the loop counter never reaches the limit
+  | wraps                 -- `i += interval` overflows int64: the loop goes on with a negative counter
+  | divZero               -- `limit/interval` with interval = 0: run-time panic
+deriving Repr, DecidableEq
+
+structure St where
+  cutoff : Int
+  interval : Int
+  limit : Int := 0
+deriving Repr
+
+/-- `for i := 0; i < limit; i += interval { …; [if interval >= limit-i { break }] }` -/
+def loopOut (guarded : Bool) (s : St) : Out :=
+  if s.limit ≤ 0 then .fields 0
+  else if s.interval ≤ 0 then .diverges
+  else
+    let l := s.limit.toNat
+    let v := s.interval.toNat
+    let n := (l + v - 1) / v                    -- iterations: i = 0, v, 2v, … < l
+    -- after the last iteration the unguarded loop still computes i = n·v
+    if !guarded && decide (maxDur < ((n * v : Nat) : Int)) then .wraps else .fields n
+
+/-- run the statements in the given order -/
+def run (cap : Int) : List Op → St → Out
+  | [], _ => .fields 0
+  | .parseCutoff :: rest, s => run cap rest s
+  | .parseInterval :: rest, s => run cap rest s
+  | .zeroCutoff :: rest, s => if s.cutoff = 0 then .error else run cap rest s
+  | .zeroInterval :: rest, s => if s.interval = 0 then .error else run cap rest s
+  | .absInterval :: rest, s => run cap rest (if s.interval < 0 then { s with interval := -s.interval } else s)
+  | .limitIsCutoff :: rest, s => run cap rest { s with limit := s.cutoff }
+  | .absLimit :: rest, s => run cap rest (if s.cutoff < 0 then { s with limit := -s.cutoff } else s)
+  | .cap :: rest, s =>
+      if s.interval = 0 then .divZero
+      else if cap < s.limit.tdiv s.interval then .error else run cap rest s
+  | .loop :: _, s => loopOut false s
+  | .loopGuarded :: _, s => loopOut true s
+
+/-- one CROSSHIFT with the given cutoff and interval (nanoseconds) -/
+def crosshift (cap : Int) (ops : List Op) (cutoff interval : Int) : Out :=
+  run cap ops { cutoff := cutoff, interval := interval }
+
+end Cross
+
 namespace Ins
 
 /-- how `doInsert` sees one value after the bytemap round trip -/
